@@ -141,10 +141,23 @@ fn filters(plan_targets: usize) -> impl Strategy<Value = Filters> {
     )
         .prop_map(move |((so, se), ts, commands)| {
             let _ = plan_targets;
+            let mut targets: Vec<String> = ts.iter().map(|t| format!("#{}", t)).collect(); // resolved against the config later
+            // the listener may also follow targets that are not part of this run: one long name
+            // (longer than any target here, with multi-byte characters), or a dozen of them (a
+            // filter line of well over a kilobyte)
+            let extra = ts.iter().fold(0u32, |a, t| a.wrapping_mul(31).wrapping_add(*t as u32)) % 5;
+            if !targets.is_empty() && extra == 1 {
+                targets.push("services/api/une-cible-qui-n-est-pas-dans-cette-exécution".to_string());
+            }
+            if !targets.is_empty() && extra == 2 {
+                for i in 0..12 {
+                    targets.push(format!("elsewhere/{}/a-target-with-a-rather-long-path-that-is-not-part-of-this-run-{:02}", "x".repeat(40), i));
+                }
+            }
             Filters {
                 stdout: so,
                 stderr: se,
-                targets: ts.iter().map(|t| format!("#{}", t)).collect(), // resolved against the config later
+                targets,
                 commands,
             }
         })
@@ -286,7 +299,9 @@ pub fn install(env: &Env, plan: &Plan, tag_lines: bool) -> Setup {
             };
             expected.insert(("stdout".to_string(), t.path.clone(), c.clone()), bb::script_bytes(&out));
             expected.insert(("stderr".to_string(), t.path.clone(), c.clone()), bb::script_bytes(&err));
-            beh.insert((c.clone(), t.path.clone()), Behavior { exit, out, err, ..Default::default() });
+            // a third of the failing tasks do not exit but are killed by a signal
+            let kill_self = if exit != 0 && exit % 3 == 0 { Some(9) } else { None };
+            beh.insert((c.clone(), t.path.clone()), Behavior { exit, out, err, kill_self, ..Default::default() });
         }
     }
     bb::install_simple(env, &cfg, &beh);
@@ -299,6 +314,9 @@ pub fn resolve_filters(f: &Filters, cfg: &ConfigSpec) -> Filters {
         .targets
         .iter()
         .map(|t| {
+            if !t.starts_with('#') {
+                return t.clone(); // a literal name (a target that is not part of this run)
+            }
             let idx: u16 = t.trim_start_matches('#').parse().unwrap_or(0);
             cfg.targets[pick(idx, n)].path.clone()
         })
